@@ -707,7 +707,9 @@ func init() {
 				for k := 0; k < n; k++ {
 					cl := classes[k%len(classes)]
 					t := byClass[cl][rng.Intn(len(byClass[cl]))]
-					sig := []string{"KILL", "KILL", "TERM", "INT"}[rng.Intn(4)]
+					// SIGKILL, or one of the signals mrp handles (terminate, interrupt,
+					// hang-up, user 1 / 2)
+					sig := []string{"KILL", "KILL", "TERM", "INT", "HUP", "USR1", "KILL", "USR2"}[rng.Intn(8)]
 					sp := crashSpec{Point: t.Name, Hit: t.Hit, Signal: sig}
 					if k%9 == 8 {
 						// double crash
@@ -735,7 +737,7 @@ func init() {
 						w = w[:max]
 					}
 					for k, t := range w {
-						addSpec(crashSpec{Point: t.Name, Hit: t.Hit, Signal: []string{"KILL", "TERM"}[(k+pi)%2]})
+						addSpec(crashSpec{Point: t.Name, Hit: t.Hit, Signal: []string{"KILL", "TERM", "KILL", "HUP"}[(k+pi)%4]})
 					}
 					c.Count("post_processing_window_points", int64(len(w)))
 				}
